@@ -90,6 +90,8 @@ def edited_profile(v, name, kind, target, field=None):
             c[2] = [c[2][0], 1]
         elif kind == 'require':
             c[2] = [1, c[2][1]]
+        elif kind == 'require-two':
+            c[2] = [2, c[2][1]]
         elif kind == 'forbid':
             c[2] = [0, 0]
         elif kind == 'datatype':
@@ -132,14 +134,15 @@ def check_structure(core, parser, v, name, node, rng, rec):
         rec.count('structures_without_target')
         return
     # ---- cardinality edits
-    for kind in ('tighten', 'require', 'forbid'):
+    for kind in ('tighten', 'require', 'forbid', 'require-two'):
         cands = [c for c in targets if (kind == 'tighten' and c.card[1] == -1) or
-                 (kind == 'require' and c.card[0] == 0) or (kind == 'forbid' and c.card[0] == 0)]
+                 (kind == 'require' and c.card[0] == 0) or (kind == 'forbid' and c.card[0] == 0) or
+                 (kind == 'require-two' and c.card[1] == -1)]
         if not cands:
             continue
         c = rng.choice(cands)
         prof, _ = edited_profile(v, name, kind, c.name)
-        copies = {'tighten': 2, 'require': 0, 'forbid': 1}[kind]
+        copies = {'tighten': 2, 'require': 0, 'forbid': 1, 'require-two': 1}[kind]
         text = instance_text(v, name, node, c.name, copies)
         case = {'version': v, 'structure': name, 'edit': kind, 'child': c.name, 'text': text}
         try:
@@ -162,7 +165,7 @@ def check_structure(core, parser, v, name, node, rng, rec):
                 rec.violation('profile-parse-changes-encoding', case, {'out': p.to_er7()[-100:]}, row=row)
                 continue
             # the complementary instance conforms to the profile
-            good = instance_text(v, name, node, c.name, {'tighten': 1, 'require': 1, 'forbid': 0}[kind])
+            good = instance_text(v, name, node, c.name, {'tighten': 1, 'require': 1, 'forbid': 0, 'require-two': 2}[kind])
             g = parser.parse_message(good, message_profile=prof)
             rg = report(g)
             if rg[0]:
@@ -461,7 +464,7 @@ def floors(tier, m):
     c = m['counters']
     if c.get('structures_used', 0) < 200:
         out.append('fewer than 200 structures')
-    if set(m['seen'].get('edit_kinds', ())) != {'tighten', 'require', 'forbid', 'datatype', 'limit-two-in-group'}:
+    if set(m['seen'].get('edit_kinds', ())) != {'tighten', 'require', 'forbid', 'datatype', 'limit-two-in-group', 'require-two'}:
         out.append('edit kinds judged: %s' % sorted(m['seen'].get('edit_kinds', ())))
     if c.get('identity_comparisons', 0) < 200 or c.get('verdict_comparisons', 0) < 200 or \
             c.get('datatype_observations', 0) < 300:
